@@ -4,6 +4,7 @@ import (
 	"fmt"
 	"go/token"
 	"go/types"
+	"regexp"
 	"sort"
 	"strings"
 
@@ -188,46 +189,30 @@ func collectVisits(fn *ssa.Function, prm *ssa.Parameter, stmtV, listV *ssa.Funct
 			}
 			return
 		}
-		// a helper that receives a child position
+		// a helper that receives child positions (directly, or as the elements of a variadic list)
 		if f.Pkg != fn.Pkg || len(f.Blocks) == 0 || isCheckFn[f] {
 			return
 		}
-		for k, a := range call.Call.Args {
-			ap, ok := normVisitPath(prm, a)
-			if !ok || k >= len(f.Params) {
+		for _, sv := range helperVisitSummary(f, stmtV, listV, isCheckFn, 0) {
+			if sv.param >= len(call.Call.Args) {
 				continue
 			}
-			hp := f.Params[k]
-			allInstrs(f, func(i2 ssa.Instruction) {
-				c2, ok := i2.(*ssa.Call)
-				if !ok {
-					return
-				}
-				g := c2.Call.StaticCallee()
-				if g != stmtV && g != listV {
-					return
-				}
-				// only unconditional visits inside the helper, or visits under a nil test of the parameter itself
-				for _, ec := range controlling(c2.Block()) {
-					if bo, isB := ec.Cond.(*ssa.BinOp); isB && isNilConst(bo.Y) && bo.X == ssa.Value(hp) {
-						continue
+			a := call.Call.Args[sv.param]
+			if a == ssa.Value(prm) && strings.HasPrefix(sv.suffix, ".") {
+				visits = append(visits, visit{call: call, path: sv.suffix[1:], whole: sv.whole})
+				continue
+			}
+			if ap, ok := normVisitPath(prm, a); ok {
+				visits = append(visits, visit{call: call, path: ap + sv.suffix, whole: sv.whole})
+				continue
+			}
+			if strings.HasPrefix(sv.suffix, "[*]") {
+				for _, el := range variadicElems(a) {
+					if ep, ok := normVisitPath(prm, el); ok {
+						visits = append(visits, visit{call: call, path: ep + sv.suffix[3:], whole: sv.whole})
 					}
-					if strings.HasSuffix(condStr(ec.Cond), "#1") || strings.Contains(ec.String(), "rangeindex") || strings.Contains(ec.String(), "< len(") {
-						continue
-					}
-					if rejectingOther(ec) {
-						continue
-					}
-					return
 				}
-				sub := path(c2.Call.Args[len(c2.Call.Args)-1])
-				switch {
-				case sub == hp.Name():
-					visits = append(visits, visit{call: call, path: ap, whole: g == listV})
-				case strings.HasPrefix(sub, hp.Name()+"."):
-					visits = append(visits, visit{call: call, path: ap + strings.TrimPrefix(sub, hp.Name()), whole: g == listV})
-				}
-			})
+			}
 		}
 	})
 	return visits
@@ -441,19 +426,49 @@ func c08Pass(c *Ctx, rtp string, k2s map[int64]string, s2k map[string]int64, wri
 			continue
 		}
 		r.Fn(relName(fn))
-		// exactly: if len(ctxCheck.forstmt) == 0 -> reject; else accept
+		// exactly: if len(ctxCheck.forstmt) == 0 -> reject; else accept — decided on the function's outcomes (helpers
+		// and methods of the check context inlined): every error outcome requires the marker stack to be empty,
+		// every accepting outcome requires it to be non-empty
 		ok := false
-		for _, b := range fn.Blocks {
-			iff, isIf := b.Instrs[len(b.Instrs)-1].(*ssa.If)
-			if !isIf {
-				continue
+		{
+			cfg := &specCfg{MaxLoop: 2, MaxDepth: 3, Call: stdErrCall}
+			var args []sval
+			for _, p := range fn.Params {
+				args = append(args, symv(p.Name()))
 			}
-			cs := condStr(iff.Cond)
-			if strings.Contains(cs, "len(") && strings.Contains(cs, ".forstmt") && strings.HasSuffix(cs, "== 0") {
-				if rejecting(b.Succs[0]) && !rejecting(b.Succs[1]) {
-					ok = true
+			outs, ab := cfg.run(fn, args)
+			nErr, nOK, bad := 0, 0, false
+			for _, o := range outs {
+				if len(o.Vals) != 1 {
+					bad = true
+					continue
+				}
+				empty, nonEmpty := false, false
+				for _, cd := range condsOnly(o.Cond) {
+					if z, known := markerEmptyLit(canonLit(cd)); known {
+						if z {
+							empty = true
+						} else {
+							nonEmpty = true
+						}
+					}
+				}
+				switch errClass(o.Vals[0]) {
+				case "error":
+					nErr++
+					if !empty || nonEmpty {
+						bad = true
+					}
+				case "nil":
+					nOK++
+					if !nonEmpty || empty {
+						bad = true
+					}
+				default:
+					bad = true
 				}
 			}
+			ok = ab == "" && !bad && nErr > 0 && nOK > 0
 		}
 		r.Ob("LOOP-DEPTH", tag+" "+fn.Name()+" rejects iff no enclosing loop", t.Pos(fn.Pos()), ok, "must return an error exactly when the loop-marker stack is empty")
 	}
@@ -580,8 +595,10 @@ func c08CallCheck(c *Ctx, tag string, cf, listV *ssa.Function) {
 	nameArg := func(get *ssa.Call) bool {
 		return get != nil && path(get.Call.Args[len(get.Call.Args)-1]) == prm.Name()+".Name"
 	}
-	r.Ob("CALL-CHECK", key+" rejects unknown function", t.Pos(cf.Pos()), missRejects(getCall) && nameArg(getCall), "a call whose name is not in the function table must be rejected")
-	r.Ob("CALL-CHECK", key+" rejects missing checker", t.Pos(cf.Pos()), missRejects(getCheck) && nameArg(getCheck), "a call without a registered checker must be rejected")
+	// the same four facts decided on the function's outcomes (phases split into helpers are inlined)
+	sp := c08CallCheckSpec(cf, prm, listV)
+	r.Ob("CALL-CHECK", key+" rejects unknown function", t.Pos(cf.Pos()), (missRejects(getCall) && nameArg(getCall)) || sp.unknown, "a call whose name is not in the function table must be rejected")
+	r.Ob("CALL-CHECK", key+" rejects missing checker", t.Pos(cf.Pos()), (missRejects(getCheck) && nameArg(getCheck)) || sp.missing, "a call without a registered checker must be rejected")
 	okv := visitParams != nil
 	if okv {
 		for _, ec := range controlling(visitParams.Block()) {
@@ -601,7 +618,7 @@ func c08CallCheck(c *Ctx, tag string, cf, listV *ssa.Function) {
 			}
 		}
 	}
-	r.Ob("CALL-CHECK", key+" visits arguments", t.Pos(cf.Pos()), okv, "expr.Param must be visited unconditionally (after the unknown-function rejection)")
+	r.Ob("CALL-CHECK", key+" visits arguments", t.Pos(cf.Pos()), okv || sp.visits, "expr.Param must be visited unconditionally (after the unknown-function rejection)")
 	// the dynamic call is the looked-up checker applied to (ctx, expr) and its result is returned
 	okd := false
 	if dyn != nil && getCheck != nil {
@@ -615,7 +632,7 @@ func c08CallCheck(c *Ctx, tag string, cf, listV *ssa.Function) {
 			}
 		}
 	}
-	r.Ob("CALL-CHECK", key+" returns the checker's verdict", t.Pos(cf.Pos()), okd, "the registered checker must be applied to this call expression and its result returned")
+	r.Ob("CALL-CHECK", key+" returns the checker's verdict", t.Pos(cf.Pos()), okd || sp.verdict, "the registered checker must be applied to this call expression and its result returned")
 }
 
 // markerStoreEffect: +1 for `x.forstmt = append(x.forstmt, …)`, -1 for `x.forstmt = x.forstmt[:len-1]`, else 0.
@@ -666,33 +683,50 @@ func markerCallEffect(cc *ssa.CallCommon, pk *ssa.Package) int {
 func c08LoopDepth(c *Ctx, tag string, fn, listV *ssa.Function) {
 	r, t := c.R, c.T
 	prm := fn.Params[len(fn.Params)-1]
-	var body *ssa.Call       // the body visit, in fn
-	var via, inner *ssa.Call // or: fn's call to a helper, and the body visit inside that helper
-	allInstrs(fn, func(in ssa.Instruction) {
-		x, ok := in.(*ssa.Call)
-		if !ok {
-			return
-		}
-		if x.Call.StaticCallee() == listV && strings.HasPrefix(path(x.Call.Args[len(x.Call.Args)-1]), prm.Name()+".Body") {
-			body = x
-			return
-		}
-		h := x.Call.StaticCallee()
-		if h == nil || h.Pkg != fn.Pkg || len(h.Blocks) == 0 || h == listV {
-			return
-		}
-		for k, a := range x.Call.Args {
-			if k >= len(h.Params) || !strings.HasPrefix(path(a), prm.Name()+".Body") {
-				continue
+	var body *ssa.Call // the body visit, in fn
+	var via *ssa.Call  // or: fn's call to a helper that (itself or through further helpers) visits the body …
+	var chain []*ssa.Call
+	var bodyChain func(f *ssa.Function, isBody func(ssa.Value) bool, depth int) []*ssa.Call
+	bodyChain = func(f *ssa.Function, isBody func(ssa.Value) bool, depth int) []*ssa.Call {
+		var found []*ssa.Call
+		allInstrs(f, func(in ssa.Instruction) {
+			x, ok := in.(*ssa.Call)
+			if !ok || found != nil {
+				return
 			}
-			hp := h.Params[k]
-			allInstrs(h, func(i2 ssa.Instruction) {
-				if c2, ok := i2.(*ssa.Call); ok && c2.Call.StaticCallee() == listV && rootOf(c2.Call.Args[len(c2.Call.Args)-1]) == ssa.Value(hp) {
-					via, inner = x, c2
+			h := x.Call.StaticCallee()
+			if h == nil {
+				return
+			}
+			if h == listV {
+				if isBody(x.Call.Args[len(x.Call.Args)-1]) {
+					found = []*ssa.Call{x}
 				}
-			})
-		}
-	})
+				return
+			}
+			if h.Pkg != fn.Pkg || len(h.Blocks) == 0 || depth >= 3 || h == f {
+				return
+			}
+			for k, a := range x.Call.Args {
+				if k >= len(h.Params) || !isBody(a) {
+					continue
+				}
+				hp := h.Params[k]
+				if sub := bodyChain(h, func(v ssa.Value) bool { return rootOf(v) == ssa.Value(hp) }, depth+1); sub != nil {
+					found = append([]*ssa.Call{x}, sub...)
+					return
+				}
+			}
+		})
+		return found
+	}
+	chain = bodyChain(fn, func(v ssa.Value) bool { return strings.HasPrefix(path(v), prm.Name()+".Body") }, 0)
+	switch {
+	case len(chain) == 1:
+		body = chain[0]
+	case len(chain) > 1:
+		via = chain[0]
+	}
 	key := tag + "." + fn.Name()
 	if body == nil && via == nil {
 		r.Ob("LOOP-DEPTH", key+" marker around body", t.Pos(fn.Pos()), false, "body visit not found")
@@ -743,7 +777,7 @@ func c08LoopDepth(c *Ctx, tag string, fn, listV *ssa.Function) {
 		return 0
 	}
 	flow = func(f *ssa.Function, depth int) map[ssa.Instruction]uint16 {
-		ts := &typestate{fn: f, nstate: 15, init: enc(0, 0)}
+		ts := &typestate{fn: f, nstate: 15, init: enc(0, 0), successOnly: true}
 		ts.trans = func(in ssa.Instruction, st int) int {
 			delta, def := dec(st)
 			switch x := in.(type) {
@@ -771,24 +805,41 @@ func c08LoopDepth(c *Ctx, tag string, fn, listV *ssa.Function) {
 	}
 	before := flow(fn, 0)
 	if body == nil {
-		// the body is visited inside the helper: depth at the helper call + depth inside the helper before the visit
-		bh := flow(via.Call.StaticCallee(), 1)
-		okBody := true
-		for s1 := 0; s1 < 15; s1++ {
-			if before[via]&(1<<uint(s1)) == 0 {
-				continue
-			}
-			for s2 := 0; s2 < 15; s2++ {
-				if bh[inner]&(1<<uint(s2)) == 0 {
-					continue
+		// the body is visited inside helpers: depth at the helper call + depth inside each helper before the next call
+		sets := [][]int{}
+		collect := func(m uint16) []int {
+			var ds []int
+			for s := 0; s < 15; s++ {
+				if m&(1<<uint(s)) != 0 {
+					d, _ := dec(s)
+					ds = append(ds, d)
 				}
-				d1, _ := dec(s1)
-				d2, _ := dec(s2)
-				if d1+d2 != 1 {
+			}
+			return ds
+		}
+		sets = append(sets, collect(before[via]))
+		for i := 1; i < len(chain); i++ {
+			hf := chain[i-1].Call.StaticCallee()
+			sets = append(sets, collect(flow(hf, 1)[chain[i]]))
+		}
+		okBody := true
+		var sum func(i, acc int)
+		sum = func(i, acc int) {
+			if i == len(sets) {
+				if acc != 1 {
 					okBody = false
 				}
+				return
+			}
+			if len(sets[i]) == 0 {
+				okBody = false
+				return
+			}
+			for _, d := range sets[i] {
+				sum(i+1, acc+d)
 			}
 		}
+		sum(0, 0)
 		r.Ob("LOOP-DEPTH", key+" pushes the loop marker before the body visit", t.Pos(via.Pos()), okBody,
 			"while the body is checked (inside "+via.Call.StaticCallee().Name()+") the marker stack must be exactly one deeper than at entry")
 		body = via
@@ -1032,4 +1083,275 @@ func c08LoadChecks(c *Ctx) {
 		}
 		r.Ob("LOAD-CHECKS", t.SSA[pp].Pkg.Name()+".Script.Check runs the visitor on the whole script", t.Pos(ck.Pos()), okk, "Check must visit every top-level statement and report the visitor's error")
 	}
+}
+
+// hvisit: a helper visits <param>.<suffix> ("" the parameter itself, ".Stmts", "[*]" every element of a list
+// parameter) on every path that is not cut short by an earlier visit's error.
+type hvisit struct {
+	param  int
+	suffix string
+	whole  bool
+}
+
+var hvisitMemo = map[*ssa.Function][]hvisit{}
+
+// helperVisitSummary: the positions, relative to its own parameters, that the helper h hands to the element visitor
+// or the list visitor — itself or through further helpers (three levels). A visit counts only if every branch
+// condition on the way to it is: a nil test of the parameter or of the visited value itself (inside a loop, only if
+// the nil arm goes on with the loop — leaving it would skip the remaining elements), the control of a loop over the
+// list, a comma-ok, or a test whose other arm rejects.
+func helperVisitSummary(h *ssa.Function, stmtV, listV *ssa.Function, isCheckFn map[*ssa.Function]bool, depth int) []hvisit {
+	if s, ok := hvisitMemo[h]; ok {
+		return s
+	}
+	hvisitMemo[h] = nil
+	loops := naturalLoops(h)
+	paramRel := func(v ssa.Value) (int, string, bool) {
+		p := path(v)
+		for j, prm := range h.Params {
+			n := prm.Name()
+			if p == n {
+				return j, "", true
+			}
+			if strings.HasPrefix(p, n+".") || strings.HasPrefix(p, n+"[") {
+				return j, p[len(n):], true
+			}
+		}
+		return 0, "", false
+	}
+	admissible := func(c2 *ssa.Call, visited ssa.Value, pj int) bool {
+		for _, ec := range controlling(c2.Block()) {
+			if bo, isB := ec.Cond.(*ssa.BinOp); isB && isNilConst(bo.Y) && (bo.Op == token.EQL || bo.Op == token.NEQ) {
+				nonNil := (bo.Op == token.NEQ && ec.Pol) || (bo.Op == token.EQL && !ec.Pol)
+				if nonNil && (bo.X == ssa.Value(h.Params[pj]) || bo.X == visited || path(bo.X) == path(visited)) {
+					// the nil arm must not leave a loop the visit sits in
+					nilArm := ec.If.Succs[1]
+					if !ec.Pol {
+						nilArm = ec.If.Succs[0]
+					}
+					leaves := false
+					for _, l := range loops {
+						if l.Blocks[c2.Block()] && !l.Blocks[nilArm] {
+							leaves = true
+						}
+					}
+					if !leaves {
+						continue
+					}
+					return false
+				}
+			}
+			if strings.HasSuffix(condStr(ec.Cond), "#1") || strings.Contains(ec.String(), "rangeindex") || strings.Contains(ec.String(), "< len(") {
+				continue
+			}
+			if rejectingOther(ec) {
+				continue
+			}
+			return false
+		}
+		return true
+	}
+	var out []hvisit
+	allInstrs(h, func(in ssa.Instruction) {
+		c2, ok := in.(*ssa.Call)
+		if !ok {
+			return
+		}
+		g := c2.Call.StaticCallee()
+		if g == nil {
+			return
+		}
+		if g == stmtV || g == listV {
+			arg := c2.Call.Args[len(c2.Call.Args)-1]
+			if j, suf, ok := paramRel(arg); ok && admissible(c2, arg, j) {
+				out = append(out, hvisit{j, suf, g == listV})
+			}
+			return
+		}
+		if g.Pkg != h.Pkg || len(g.Blocks) == 0 || isCheckFn[g] || depth >= 3 || g == h {
+			return
+		}
+		for _, sv := range helperVisitSummary(g, stmtV, listV, isCheckFn, depth+1) {
+			if sv.param >= len(c2.Call.Args) {
+				continue
+			}
+			a := c2.Call.Args[sv.param]
+			if j, suf, ok := paramRel(a); ok {
+				if admissible(c2, a, j) {
+					out = append(out, hvisit{j, suf + sv.suffix, sv.whole})
+				}
+				continue
+			}
+			if strings.HasPrefix(sv.suffix, "[*]") {
+				for _, el := range variadicElems(a) {
+					if j, suf, ok := paramRel(el); ok && admissible(c2, el, j) {
+						out = append(out, hvisit{j, suf + sv.suffix[3:], sv.whole})
+					}
+				}
+			}
+		}
+	})
+	hvisitMemo[h] = out
+	return out
+}
+
+// variadicElems: v is the slice the compiler builds for `f(a, b, c)` on a variadic parameter (a fresh array, one
+// store per element, sliced whole): the element values in order.
+func variadicElems(v ssa.Value) []ssa.Value {
+	sl, ok := v.(*ssa.Slice)
+	if !ok || sl.Low != nil || sl.High != nil {
+		return nil
+	}
+	arr, ok := sl.X.(*ssa.Alloc)
+	if !ok || arrayLen(arr.Type()) < 0 || arr.Referrers() == nil {
+		return nil
+	}
+	els := map[int64]ssa.Value{}
+	for _, ref := range *arr.Referrers() {
+		ia, isI := ref.(*ssa.IndexAddr)
+		if !isI {
+			continue
+		}
+		k, isC := constInt(ia.Index)
+		if !isC || ia.Referrers() == nil {
+			return nil
+		}
+		for _, rr := range *ia.Referrers() {
+			if st, isS := rr.(*ssa.Store); isS && st.Addr == ssa.Value(ia) {
+				els[k] = st.Val
+			}
+		}
+	}
+	var out []ssa.Value
+	for k := int64(0); k < arrayLen(arr.Type()); k++ {
+		if els[k] == nil {
+			return nil
+		}
+		out = append(out, els[k])
+	}
+	return out
+}
+
+// markerEmptyLit: the literal (canonLit form) says the loop-marker stack is empty (true) or non-empty (false).
+func markerEmptyLit(lit string) (empty bool, known bool) {
+	pos := lit[0] == '+'
+	atom := lit[1:]
+	if !strings.Contains(atom, ".forstmt)") || !strings.Contains(atom, "len(") {
+		return false, false
+	}
+	for _, f := range []struct {
+		re    string
+		empty bool
+	}{
+		{`^0 == len\([^()]*\.forstmt\)$`, true}, {`^len\([^()]*\.forstmt\) == 0$`, true},
+		{`^len\([^()]*\.forstmt\) <= 0$`, true}, {`^len\([^()]*\.forstmt\) < 1$`, true},
+		{`^len\([^()]*\.forstmt\) > 0$`, false}, {`^len\([^()]*\.forstmt\) >= 1$`, false},
+		{`^0 < len\([^()]*\.forstmt\)$`, false}, {`^len\([^()]*\.forstmt\) != 0$`, false},
+	} {
+		if regexp.MustCompile(f.re).MatchString(atom) {
+			return f.empty == pos, true
+		}
+	}
+	return false, false
+}
+
+// c08CallCheckSpec: RunCallExprCheck specialised with the two table lookups, the argument visit and the checker's
+// verdict as symbols. unknown: every outcome with the function lookup missing is an error; missing: likewise for
+// the checker lookup; visits: every outcome that is not an error of the two lookups ran the argument visit on
+// expr.Param; verdict: the outcome with both lookups found and the arguments accepted returns what the looked-up
+// checker returned for (ctx, expr), and nothing else is ever returned as success.
+type c08CallSpec struct{ unknown, missing, visits, verdict bool }
+
+func c08CallCheckSpec(cf *ssa.Function, prm *ssa.Parameter, listV *ssa.Function) c08CallSpec {
+	var res c08CallSpec
+	cfg := &specCfg{MaxLoop: 2, MaxDepth: 3, MaxVisits: 100000}
+	cfg.Call = func(fn *ssa.Function, call *ssa.Call, nth int, args []sval) (sval, bool) {
+		cal := call.Call.StaticCallee()
+		if cal == nil {
+			return sval{}, false
+		}
+		last := ""
+		if len(args) > 0 {
+			last = args[len(args)-1].String()
+		}
+		switch cal.Name() {
+		case "GetFuncCall", "GetFn":
+			if last == prm.Name()+".Name" {
+				return sval{tup: []sval{symv("fn"), symv("hasFn")}}, true
+			}
+			return sval{tup: []sval{symv("fn?"), symv("hasOtherFn")}}, true
+		case "GetFuncCheck", "GetFnCheck":
+			if last == prm.Name()+".Name" {
+				return sval{tup: []sval{symv("checker"), symv("hasChk")}}, true
+			}
+			return sval{tup: []sval{symv("checker?"), symv("hasOtherChk")}}, true
+		case "ChainAppend":
+			return errValue("chained"), true
+		}
+		if cal == listV {
+			if last == prm.Name()+".Param" {
+				return symv("effect:visit-args"), true
+			}
+			return symv("effect:visit-other"), true
+		}
+		return stdErrCall(fn, call, nth, args)
+	}
+	cfg.DynCall = func(fn *ssa.Function, call *ssa.Call, callee sval, args []sval) (sval, bool) {
+		if callee.String() == "checker" && len(args) == 2 && args[1].String() == prm.Name() {
+			return symv("verdict"), true
+		}
+		return symv("effect:other-dynamic-call"), true
+	}
+	var args []sval
+	for _, p := range cf.Params {
+		args = append(args, symv(p.Name()))
+	}
+	outs, ab := cfg.run(cf, args)
+	if ab != "" || len(outs) == 0 {
+		return res
+	}
+	res = c08CallSpec{true, true, true, true}
+	nVerdict := 0
+	for _, o := range outs {
+		if len(o.Vals) != 1 {
+			return c08CallSpec{}
+		}
+		lits := map[string]bool{}
+		visited := false
+		for _, cd := range o.Cond {
+			if cd == "effect:visit-args" {
+				visited = true
+			}
+			if !strings.HasPrefix(cd, "effect:") {
+				lits[canonLit(cd)] = true
+			}
+		}
+		v := o.Vals[0]
+		cls := errClass(v)
+		// the visit's own result: `effect:visit-args` compared with nil decides whether the arguments were accepted
+		argsRejected := lits["-effect:visit-args == nil"] || lits["-nil == effect:visit-args"]
+		if lits["-hasFn"] && cls != "error" {
+			res.unknown = false
+		}
+		if lits["-hasChk"] && cls != "error" {
+			res.missing = false
+		}
+		if !lits["-hasFn"] && !visited {
+			res.visits = false
+		}
+		switch {
+		case v.String() == "verdict":
+			nVerdict++
+			if !(lits["+hasFn"] && lits["+hasChk"] && visited && !argsRejected) {
+				res.verdict = false
+			}
+		case cls == "error":
+		default:
+			res.verdict = false // something else than an error or the checker's verdict is returned
+		}
+	}
+	if nVerdict == 0 {
+		res.verdict = false
+	}
+	return res
 }
